@@ -1109,15 +1109,16 @@ fn case_generic<const RX: usize>(case: u64, seed: u64, focus: Focus, steps: usiz
 }
 
 pub fn one_case(prop: &str, case: u64, seed: u64, thorough: bool, build: &str, want_sample: bool) -> CaseOut {
-    let steps = if thorough { 3000 } else { 600 };
+    let miri = build.starts_with("miri");
+    let steps = if miri { 40 } else if thorough { 3000 } else { 600 };
     if prop == "C18" {
         return case_generic::<512>(case, seed, Focus::State, steps, want_sample);
     }
     // C17: wrap runs are cases 0 (tx) and 1 (rx, thorough or release build only)
-    if case == 0 {
+    if case == 0 && !miri {
         return case_generic::<512>(case, seed, Focus::WrapTx, 0, want_sample);
     }
-    if case == 1 && (thorough || build == "release") {
+    if case == 1 && !miri && (thorough || build == "release") {
         return case_generic::<65536>(case, seed, Focus::WrapRx, 0, want_sample);
     }
     if case % 5 == 4 {
@@ -1128,10 +1129,8 @@ pub fn one_case(prop: &str, case: u64, seed: u64, thorough: bool, build: &str, w
 }
 
 pub fn run(args: &Args, sh: &mut Shard) {
-    if args.is_miri() {
-        sh.inconclusive.push("driver-level checks use fabricated MMIO addresses for the real transports; C17/C18 are not run under Miri".into());
-        return;
-    }
+    // under Miri: model transports only (see xport_any::set_model_only), tiny workloads
+    crate::xport_any::set_model_only(args.is_miri());
     if let Some(r) = &args.replay {
         let case = r.get("case").and_then(|x| x.as_u64()).unwrap_or(0);
         let o = one_case(&args.prop, case, args.seed, args.thorough(), &args.build, true);
@@ -1142,7 +1141,7 @@ pub fn run(args: &Args, sh: &mut Shard) {
         sh.evaluations = 1;
         return;
     }
-    let n = args.scaled(if args.thorough() { 60_000 } else { 4_800 });
+    let n = if args.is_miri() { 48 } else { args.scaled(if args.thorough() { 60_000 } else { 4_800 }) };
     let mut case = args.shard;
     while case < n {
         let o = one_case(&args.prop, case, args.seed, args.thorough(), &args.build, sh.want_sample() && case > 1);
